@@ -36,6 +36,7 @@ type violation struct {
 	output string
 	pos    string
 	model  string
+	oblRef *Obligation
 }
 
 func checkProperty(prog *Program, prop, tier string, seed, timeoutS int, loadS float64, keep, verbose bool) int {
@@ -120,7 +121,7 @@ func checkProperty(prog *Program, prop, tier string, seed, timeoutS int, loadS f
 			}
 			continue
 		}
-		v := violation{obl: o.Name, reason: "obligation not discharged: " + o.Status, output: o.Output, pos: o.Pos}
+		v := violation{obl: o.Name, reason: "obligation not discharged: " + o.Status, output: o.Output, pos: o.Pos, oblRef: o}
 		if o.Status == "sat" {
 			v.model = getModel(o, opt)
 		}
